@@ -75,7 +75,7 @@ class Verdicts:
         self.chk = chk
         self.corr = []
 
-    def case(self, name, payload, good, equal, known, nontrivial_key=None):
+    def case(self, name, payload, good, equal, known, nontrivial_key=None, what=None):
         chk = self.chk
         chk.evaluations += 1
         if good and equal:
@@ -85,7 +85,7 @@ class Verdicts:
                 chk.count('known_class_but_good:' + known)
             return
         if not good and known is None:
-            chk.violation(name, payload, 'the observed target type differs from the structural translation (c05_erase) on an input outside every recorded class')
+            chk.violation(name, payload, what or 'the observed target type differs from the structural translation (c05_erase) on an input outside every recorded class')
         elif not good and not equal:
             chk.violation(name, payload, f'fails differently from what finding {known} predicts (model and implementation disagree)')
         elif not good:
@@ -135,7 +135,8 @@ def phase_prims(chk, V):
             if not same(ci, cm):
                 V.corr.append(payload)
             continue
-        V.case(f'prim-{l}-{t["name"]}', payload, good and ci[0] == 'ok', same(ci, cm), known, ('prim', l, t['name']))
+        V.case(f'prim-{l}-{t["name"]}', payload, good and ci[0] == 'ok', same(ci, cm), known, ('prim', l, t['name']),
+               what=f'{T.PRIM_RUST[t["name"]]} is translated to {n!r}, which is not a {l} type of the same JSON category that holds every value of the Rust type')
 
 
 # ---------------------------------------------------------------------------------------------- trees
@@ -218,7 +219,8 @@ def phase_front(chk, V, n):
             continue
         if not bad and den != vf.dump_sx(vf.parse_sx(ir.sx_ty(t))):
             chk.violation(f'front-gen-{k}', payload, 'generator ground truth and c05_denote disagree on the meaning of the source type', no_input=True)
-        V.case(f'front-{k}', payload, ci == ('ok', den), same(ci, cm), None, ('front', src) if T.depth(t) >= 2 else None)
+        V.case(f'front-{k}', payload, ci == ('ok', den), same(ci, cm), None, ('front', src) if T.depth(t) >= 2 else None,
+               what='RustType::try_from does not yield the structural denotation of the source type (containers, vanishing wrappers / references / qualification, argument order)')
         if k % 499 == 0:
             chk.sample({'source_type': src, 'ir': T.rust_name(t)})
 
